@@ -29,14 +29,48 @@ hypothesis structure `Crypto.Ideal`, never axioms.
 namespace WV.C01
 open WV WV.Gen
 
+/-! ## Python strings
+
+A Python `str` is a sequence of code points `0 … 0x10FFFF`, *surrogates included* (`'\udce9'` is a legal
+one-character `str`; PEP 383 delivers undecodable argv / terminal bytes that way).  Lean's `String` cannot
+hold a surrogate, so the strings that come from the application — code, appid, `derive_key` purpose — are
+lists of code points.  (Sides and phases are ASCII and stay `String`.) -/
+
+/-- a Python `str` -/
+abbrev PyStr := List Nat
+
+/-- the `str` with the characters of a Lean string -/
+def py (s : String) : PyStr := s.toList.map Char.toNat
+
+/-- one code point under `str.encode("utf-8")` (errors="strict"): `none` = `UnicodeEncodeError`
+    ("surrogates not allowed"); code points are `< 0x110000` in any `str` -/
+def utf8cp (c : Nat) : Option Bytes :=
+  if c < 0x80 then some [c]
+  else if c < 0x800 then some [0xC0 + c / 64, 0x80 + c % 64]
+  else if 0xD800 ≤ c ∧ c ≤ 0xDFFF then none
+  else if c < 0x10000 then some [0xE0 + c / 4096, 0x80 + c / 64 % 64, 0x80 + c % 64]
+  else if c < 0x110000 then some [0xF0 + c / 262144, 0x80 + c / 4096 % 64, 0x80 + c / 64 % 64, 0x80 + c % 64]
+  else none
+
+/-- `u.encode("utf-8")`: `none` = `UnicodeEncodeError` (the whole call raises at the first surrogate) -/
+def utf8enc : PyStr → Option Bytes
+  | [] => some []
+  | c :: cs =>
+    match utf8cp c, utf8enc cs with
+    | some a, some b => some (a ++ b)
+    | _, _ => none
+
+/-- can strict UTF-8 encode this code point / this string?  Everything but the surrogates
+    `U+D800 … U+DFFF`.  (`Proofs.C01`: `utf8enc_isSome`, `utf8enc_inj`.) -/
+def cpEncodable (c : Nat) : Bool := c < 0xD800 || (0xDFFF < c && c < 0x110000)
+def encodable (s : PyStr) : Bool := s.all cpEncodable
+
 /-! ## external operations -/
 
-/-- SPAKE2 / HKDF-SHA256 / SHA256 / SecretBox / Unicode, as the code uses them. -/
+/-- SPAKE2 / HKDF-SHA256 / SHA256 / SecretBox / Unicode normalisation, as the code uses them. -/
 structure Crypto where
   /-- `unicodedata.normalize("NFC", ·)` -/
-  nfc : String → String
-  /-- `str.encode("utf-8")` -/
-  enc : String → Bytes
+  nfc : PyStr → PyStr
   /-- `SPAKE2_Symmetric(pw, idSymmetric=id).start()` with the random scalar `rnd`: the element sent -/
   pakeStart : (pw id rnd : Bytes) → Bytes
   /-- `.finish(msg2)` of that instance; `none` = the library raises (reflected / malformed element) -/
@@ -55,7 +89,9 @@ def hkdfMax : Nat := 8160
 /-- The ideal properties the theorems rely on. -/
 structure Crypto.Ideal (C : Crypto) : Prop where
   nfc_idem : ∀ s, C.nfc (C.nfc s) = C.nfc s
-  enc_inj : ∀ s t, C.enc s = C.enc t → s = t
+  /-- normalisation neither removes nor creates what UTF-8 cannot encode (surrogates have no
+      decomposition and compose with nothing: `normalize` leaves them where they are) -/
+  nfc_encodable : ∀ s, encodable (C.nfc s) = encodable s
   /-- two honest parties with distinct scalars always finish, and with the same key exactly when
       password and identity agree; otherwise the keys are different -/
   pake : ∀ pw id r pw' id' r', r ≠ r' →
@@ -68,8 +104,9 @@ structure Crypto.Ideal (C : Crypto) : Prop where
   unbox_box : ∀ k n p, C.unbox k (C.box k n p) = some p
   unbox_wrong_key : ∀ k k' n p, k ≠ k' → C.unbox k' (C.box k n p) = none
 
-/-- `util.to_bytes`: NFC-normalise, then UTF-8 -/
-def toBytes (C : Crypto) (u : String) : Bytes := C.enc (C.nfc u)
+/-- `util.to_bytes`: `unicodedata.normalize("NFC", u).encode("utf-8")` — NFC-normalise, then *strict*
+    UTF-8; `none` = `UnicodeEncodeError` -/
+def toBytes (C : Crypto) (u : PyStr) : Option Bytes := utf8enc (C.nfc u)
 
 /-- `b"wormhole:verifier"` -/
 def verifierPurpose : Bytes := utf8 "wormhole:verifier"
@@ -99,11 +136,14 @@ inductive Exn where
   | typeError
   | noKeyError
   | valueError
+  | unicodeEncodeError
+  | attributeError
   deriving DecidableEq, Repr
 
 def Exn.name : Exn → String
   | .noTransition _ => "NoTransition" | .assertion => "AssertionError"
   | .typeError => "TypeError" | .noKeyError => "NoKeyError" | .valueError => "ValueError"
+  | .unicodeEncodeError => "UnicodeEncodeError" | .attributeError => "AttributeError"
 
 /-- `Boss._result` -/
 inductive Verdict where
@@ -115,7 +155,7 @@ def Verdict.name : Verdict → String
 
 /-- calls that leave the modelled core -/
 inductive Ev where
-  | wCode (code : String)
+  | wCode (code : PyStr)
   | wKey (k : Bytes)
   | wVerifier (v : Bytes)
   | wVersions (v : Bytes)
@@ -132,7 +172,7 @@ def Ev.delivers : Ev → Bool
 
 structure Cfg where
   side : String
-  appid : String
+  appid : PyStr
   /-- `dict_to_bytes(self._versions)` -/
   versions : Bytes
   /-- the SPAKE2 scalar this client will draw -/
@@ -230,7 +270,7 @@ def sendIn (C : Crypto) (cfg : Cfg) (i : SIn) (s : St) : Res :=
 /-! ## Boss (`_boss.py`) -/
 
 inductive BIn where
-  | gotCode (code : String)
+  | gotCode (code : PyStr)
   | gotKey (key : Bytes)
   | happy
   | scared
@@ -361,7 +401,7 @@ def receiveGotMessage (C : Crypto) (cfg : Cfg) (m : Msg) (s : St) : Res :=
 /-! ## _SortedKey (`_key.py`) -/
 
 inductive SKIn where
-  | gotCode (code : String)
+  | gotCode (code : PyStr)
   | pakeGood (msg2 : Bytes)
   | pakeBad
 
@@ -371,14 +411,17 @@ def SKIn.tag : SKIn → SortedKey.Input
 def sortedKeyOut (C : Crypto) (cfg : Cfg) (i : SKIn) (o : SortedKey.Output) (s : St) : Res :=
   match o, i with
   | .build_pake, .gotCode code =>
-    let pw := toBytes C code
-    let idS := toBytes C cfg.appid
-    let msg1 := C.pakeStart pw idS cfg.rnd
-    emit (.mAdd "pake" (pakeBody msg1)) { s with sp := some (pw, idS) }
+    -- `SPAKE2_Symmetric(to_bytes(code), idSymmetric=to_bytes(self._appid))`: either `to_bytes` may
+    -- raise; then `self._sp` is never assigned and nothing is sent
+    match toBytes C code, toBytes C cfg.appid with
+    | some pw, some idS =>
+      let msg1 := C.pakeStart pw idS cfg.rnd
+      emit (.mAdd "pake" (pakeBody msg1)) { s with sp := some (pw, idS) }
+    | _, _ => raise .unicodeEncodeError s
   | .scared, .pakeBad => bossIn C cfg .scared s
   | .compute_key, .pakeGood msg2 =>
     match s.sp with
-    | none => raise .typeError s                        -- AttributeError: no `_sp`
+    | none => raise .attributeError s                   -- `self._sp.finish`: no `_sp` (`build_pake` raised)
     | some (pw, idS) =>
       match C.pakeFinish pw idS cfg.rnd msg2 with
       | none => bossIn C cfg .scared s                  -- `except (AssertionError, ValueError, SPAKEError, NotOnCurve): self._B.scared(); return`
@@ -404,7 +447,7 @@ def sortedKeyGotPake (C : Crypto) (cfg : Cfg) (body : Bytes) (s : St) : Res :=
 /-! ## Key (`_key.py`) -/
 
 inductive KIn where
-  | gotCode (code : String)
+  | gotCode (code : PyStr)
   | gotPake (body : Bytes)
 
 def KIn.tag : KIn → Key.Input
@@ -447,18 +490,23 @@ def orderGotMessage (C : Crypto) (cfg : Cfg) (m : Msg) (s : St) : Res :=
 /-! ## the boundary -/
 
 /-- `Code.do_set_code / do_finish_input / do_finish_allocate`: `B.got_code(code)` then `K.got_code(code)` -/
-def gotCode (C : Crypto) (cfg : Cfg) (code : String) (s : St) : Res :=
+def gotCode (C : Crypto) (cfg : Cfg) (code : PyStr) (s : St) : Res :=
   andThen (bossIn C cfg (.gotCode code) s) (keyIn C cfg (.gotCode code))
 
-/-- `wormhole.derive_key(purpose, length)` (`purpose` a `str`, `length` a non-negative `int`) -/
-def deriveKey (C : Crypto) (s : St) (purpose : String) (n : Nat) : Except Exn Bytes :=
+/-- `wormhole.derive_key(purpose, length)` (`purpose` a `str`, `length` a non-negative `int`):
+    `if not self._key: raise NoKeyError()`, then `derive_key(self._key, to_bytes(purpose), length)` —
+    the argument `to_bytes(purpose)` is evaluated (and may raise) before HKDF sees the length -/
+def deriveKey (C : Crypto) (s : St) (purpose : PyStr) (n : Nat) : Except Exn Bytes :=
   match s.wkey with
   | none => .error .noKeyError
-  | some key => if hkdfMax < n then .error .valueError else .ok (C.hkdf key (toBytes C purpose) n)
+  | some key =>
+    match toBytes C purpose with
+    | none => .error .unicodeEncodeError
+    | some info => if hkdfMax < n then .error .valueError else .ok (C.hkdf key info n)
 
 /-- what the environment can do to a client (the schedule alphabet of the theorems) -/
 inductive Env where
-  | code (c : String)
+  | code (c : PyStr)
   | rx (m : Msg)
   | send (pt : Bytes)
   | close
@@ -539,9 +587,8 @@ def dec2 : Bytes → Option (Bytes × Bytes)
 
 /-- free-term style primitives: every result spells out its arguments, so equal results mean equal
     arguments.  `nfc` is a parameter (the driver is told the normal forms by the harness). -/
-def toyCrypto (nfc : String → String) : Crypto where
+def toyCrypto (nfc : PyStr → PyStr) : Crypto where
   nfc := nfc
-  enc := fun s => s.toList.map Char.toNat
   pakeStart := fun pw _ r => enc2 r pw
   pakeFinish := fun pw idS r msg2 =>
     match dec2 msg2 with
@@ -562,6 +609,7 @@ def toyCrypto (nfc : String → String) : Crypto where
 
 ```
 nfc <rawhex> <nfchex>                 -> ok        (declare the NFC form of a string)
+                                                   (strings = hex of their UTF-8, surrogates passed through: `hexOfPy`)
 client <i> <appidhex> <versionshex>   -> ok        (create client i; side "s<i>", scalar [i])
 code <i> <codehex>                    -> summary   (B.got_code; K.got_code)
 rx <i> <from> <phase>                 -> summary   (O.got_message with the body client <from> sent for <phase>)
@@ -569,14 +617,63 @@ rxbad <i> <from> <phase> <kind>       -> summary   (kind: nopake = body without 
                                                     library refuses (malformed, reflected, wrong side) | accepted = a
                                                     stranger's valid element | garbage = undecryptable non-PAKE body)
 send <i> <hex> | close <i> | closed <i>            -> summary
-derive <i> <purposehex> <n>           -> #k | NoKeyError | ValueError
+derive <i> <purposehex> <n>           -> #k | NoKeyError | UnicodeEncodeError | ValueError
 ```
 summary = `<ok|Exception> K=… SK=… O=… R=… S=… B=… | ev; ev; …` with the events of this step; secret
 byte strings (keys, verifiers, derived keys) are shown as `#k`, k = first-occurrence index in the run.
 -/
 
+/-- wire format of a `PyStr` on the line protocol: hex of `s.encode("utf-8", "surrogatepass")`, i.e.
+    UTF-8 with the surrogates written as ordinary three-byte sequences (for every encodable string this
+    is the hex of its UTF-8, as everywhere else) -/
+def wireCp (c : Nat) : Bytes :=
+  if c < 0x80 then [c]
+  else if c < 0x800 then [0xC0 + c / 64, 0x80 + c % 64]
+  else if c < 0x10000 then [0xE0 + c / 4096, 0x80 + c / 64 % 64, 0x80 + c % 64]
+  else [0xF0 + c / 262144 % 8, 0x80 + c / 4096 % 64, 0x80 + c / 64 % 64, 0x80 + c % 64]
+
+def hexOfPy (s : PyStr) : String := toHex (s.flatMap wireCp)
+
+def isCont (b : Nat) : Bool := 0x80 ≤ b && b < 0xC0
+
+/-- the inverse of `wireCp` on byte lists (structure only; shortest-form is not checked: the harness
+    writes these lines with python's encoder).  `Proofs.C01.wire_roundtrip`: decoding what `hexOfPy`
+    writes gives the string back, surrogates included. -/
+def pyOfBytes : Bytes → Option PyStr
+  | [] => some []
+  | b :: rest =>
+    if b < 0x80 then (pyOfBytes rest).map (b :: ·)
+    else
+      match rest with
+      | [] => none
+      | b1 :: r1 =>
+        if 0xC0 ≤ b ∧ b < 0xE0 then
+          if isCont b1 then (pyOfBytes r1).map (((b - 0xC0) * 64 + (b1 - 0x80)) :: ·) else none
+        else
+          match r1 with
+          | [] => none
+          | b2 :: r2 =>
+            if 0xE0 ≤ b ∧ b < 0xF0 then
+              if isCont b1 && isCont b2 then
+                (pyOfBytes r2).map (((b - 0xE0) * 4096 + (b1 - 0x80) * 64 + (b2 - 0x80)) :: ·)
+              else none
+            else
+              match r2 with
+              | [] => none
+              | b3 :: r3 =>
+                if 0xF0 ≤ b ∧ b < 0xF8 then
+                  if isCont b1 && isCont b2 && isCont b3 then
+                    (pyOfBytes r3).map
+                      (((b - 0xF0) * 262144 + (b1 - 0x80) * 4096 + (b2 - 0x80) * 64 + (b3 - 0x80)) :: ·)
+                  else none
+                else none
+
+def pyOfHex? (h : String) : Option PyStr := do
+  let b ← fromHex? h
+  pyOfBytes b
+
 structure Wd where
-  nfcTbl : List (String × String)
+  nfcTbl : List (PyStr × PyStr)
   clients : List (Nat × Cfg × St)
   vals : List Bytes
 
@@ -596,7 +693,7 @@ def valIndex (vals : List Bytes) (b : Bytes) : List Bytes × Nat :=
   | none => (vals ++ [b], vals.length)
 
 def showEv (vals : List Bytes) : Ev → List Bytes × String
-  | .wCode c => (vals, "code " ++ hexOfStr c)
+  | .wCode c => (vals, "code " ++ hexOfPy c)
   | .wKey k => let (v, i) := valIndex vals k; (v, s!"key #{i}")
   | .wVerifier k => let (v, i) := valIndex vals k; (v, s!"verifier #{i}")
   | .wVersions b => (vals, "versions " ++ toHex b)
@@ -631,16 +728,16 @@ def step (w : Wd) (line : String) : Wd × String :=
   match tokens line with
   | ["reset"] => (wdInit, "ok")
   | ["nfc", a, b] =>
-    match strOfHex? a, strOfHex? b with
+    match pyOfHex? a, pyOfHex? b with
     | some x, some y => ({ w with nfcTbl := w.nfcTbl ++ [(x, y)] }, "ok")
     | _, _ => (w, "bad-op")
   | ["client", i, appid, versions] =>
-    match i.toNat?, strOfHex? appid, fromHex? versions with
+    match i.toNat?, pyOfHex? appid, fromHex? versions with
     | some n, some a, some v =>
       (w.set n { side := s!"s{n}", appid := a, versions := v, rnd := [n] } init, "ok")
     | _, _, _ => (w, "bad-op")
   | ["code", i, c] =>
-    match i.toNat?, strOfHex? c with
+    match i.toNat?, pyOfHex? c with
     | some n, some code => clientStep w n (fun C cfg => gotCode C cfg code)
     | _, _ => (w, "bad-op")
   | ["rx", i, frm, phase] =>
@@ -676,7 +773,7 @@ def step (w : Wd) (line : String) : Wd × String :=
     | some n => clientStep w n (fun C cfg => bossIn C cfg .closed)
     | none => (w, "bad-op")
   | ["derive", i, p, n] =>
-    match i.toNat?, strOfHex? p, n.toNat? with
+    match i.toNat?, pyOfHex? p, n.toNat? with
     | some c, some purpose, some len =>
       match w.get c with
       | none => (w, "noclient")
